@@ -153,7 +153,7 @@ pub fn reflect_to_bin(compo: &dyn Reflect, registry: &TypeRegistry) -> Result<Ve
     crate::binreflect::reflect_to_bin(compo, registry).map_err(|e| e.to_string())
 }
 
-pub fn bin_to_reflect(data: &[u8], registry: &TypeRegistry) -> Box<dyn Reflect> {
+pub fn bin_to_reflect(data: &[u8], registry: &TypeRegistry) -> Option<Box<dyn Reflect>> {
     crate::binreflect::bin_to_reflect(data, registry)
 }
 
